@@ -6,6 +6,7 @@ Theorems over the heap-of-scopes model of env/*.go (Anko.Model.EnvApi).
 import Anko.Model.EnvApi
 import Anko.Gen.EnvFlow
 import Anko.Props.EnvFlowTable
+import Anko.Props.Tie.EnvFlow
 
 namespace Anko.C12
 open Anko.EnvApi
@@ -286,6 +287,6 @@ example : (run init [.define 0 "a" (.int 1), .newEnv 0, .set 1 "a" (.int 2), .ge
 Every leaf statement of every method of the environment API (env/env.go, envValues.go, envTypes.go), with the conditions it stands
 under, is the one written down in Props/EnvFlowTable next to Model/EnvApi. A lookup order changed, a binding created where only an
 update is allowed, a dotted name let through, a table of the wrong scope touched, a copy taken in pieces makes the tables differ. -/
-theorem environment_methods_are_the_modelled_ones : Gen.EnvFlow.leaves = Tables.envFlow := by decide +kernel
+theorem environment_methods_are_the_modelled_ones : Gen.EnvFlow.leaves = Tables.envFlow := Tie.envFlow
 
 end Anko.C12
